@@ -351,3 +351,16 @@ impl StackFrame {
                 final(self).stack.max_stack_size == old(self).stack.max_stack_size,
     { unimplemented!() }
 }
+
+// ---- binop_int: None (overflow / division by zero) becomes the runtime failure "Arithmetic overflow"
+pub uninterp spec fn int_result(x: VmInt) -> OpResult;     // ValueRepr::Int(x)
+#[verifier::external_body]
+pub fn mk_int_result(x: VmInt) -> (r: OpResult) ensures r == int_result(x) { unimplemented!() }
+#[verifier::external_body]
+pub fn err_arithmetic_overflow() -> Error { unimplemented!() }
+pub uninterp spec fn byte_result(x: u8) -> OpResult;       // ValueRepr::Byte(x)
+#[verifier::external_body]
+pub fn mk_byte_result(x: u8) -> (r: OpResult) ensures r == byte_result(x) { unimplemented!() }
+pub uninterp spec fn tag_result(t: VmTag) -> OpResult;     // ValueRepr::Tag(t): Bool is the variant type False = 0 | True = 1
+#[verifier::external_body]
+pub fn mk_tag_result(t: VmTag) -> (r: OpResult) ensures r == tag_result(t) { unimplemented!() }
